@@ -52,7 +52,22 @@ func TestVerifBounded_C19_Stacks(t *testing.T) {
 		}
 		return l
 	}
+	// an LRU that holds two entries only: most sequences evict entries, so the layers below have to answer
+	tinyLRU := func(c Cache) Cache {
+		l, err := WrapWithLRUCache(c, "tiny", nil, 2, time.Hour, logger)
+		if err != nil {
+			panic(err)
+		}
+		return l
+	}
 	stacks := []stack{
+		{"tinylru(versioned(mock))", func(b Cache) (Cache, Cache) {
+			return tinyLRU(NewVersioned(b, 1, logger)), tinyLRU(NewVersioned(b, 12, logger))
+		}},
+		{"versioned(tinylru(snappy(mock)))", func(b Cache) (Cache, Cache) {
+			l := tinyLRU(NewSnappy(b, logger))
+			return NewVersioned(l, 1, logger), NewVersioned(l, 12, logger)
+		}},
 		{"versioned(mock)", func(b Cache) (Cache, Cache) { return NewVersioned(b, 1, logger), NewVersioned(b, 12, logger) }},
 		{"versioned(snappy(mock))", func(b Cache) (Cache, Cache) {
 			s := NewSnappy(b, logger)
